@@ -209,12 +209,16 @@ CLAIMED = {
              "matrices by vm_compute; hence every circuit that is a sequence of such blocks - any number of layers, any "
              "entangler map / excitation list, any angles, registers of any size - maps every particle-number (S_z, parity) "
              "sector into itself. Every real ansatz circuit (SymmetryPreserving/Real, ParticleConservingU1/U2, GateFabric, "
-             "AllSinglesDoubles) over random configurations is checked to be such a sequence of the regenerated blocks; a "
-             "dense numpy sweep covers the remaining classes (Z2, UCCSD, k-UpCCGSD) and the real-amplitude claims.",
-        design_ref="DESIGN.md section 4 (C15)",
+             "AllSinglesDoubles, Z2SymmetryPreservingReal) over random configurations is checked to be such a sequence of the "
+             "regenerated blocks. z2_ansatz_circuits_conserve_parity: the Z2 block (its Rxx rotations replaced by the C01-proved "
+             "decomposition) conserves the parity; real_variant_circuits_map_real_states_to_real_states / "
+             "so4_circuits_map_real_states_to_real_states: the blocks of the real-amplitude variants have product matrices "
+             "that are real up to one phase for all angles (exactly real for the SO(4) entangler), so their circuits map real "
+             "states to real states. A dense numpy sweep covers the remaining classes (UCCSD, k-UpCCGSD).",
+        design_ref="DESIGN.md section 4 (C15), 9.2",
         note="Trusted: Coq kernel+vm_compute; Reals axioms + functional_extensionality_dep; template extraction by executing "
              "the repository's gadget functions (translate/gadgets.py, harness/blocks_C15.py); documented gate matrices. "
-             "Partial: Pauli-rotation based ansatz classes (Z2, TrotterUCCSD, KUpCCGSD), realness and total-spin claims by "
+             "Partial: the OpenFermion-generated Pauli-rotation ansatz classes (TrotterUCCSD, KUpCCGSD) and total-spin claims by "
              "the sweep only.",
         technique="Coq proof (charge-sector semantics over registers of any size + reflection of block product matrices "
                   "into Laurent polynomials, vm_compute) + segmentation correspondence + dense numpy sweep"),
